@@ -4,6 +4,8 @@ package main
 // the call graph), by name only for the public API.
 
 import (
+	"go/constant"
+	"go/token"
 	"go/types"
 	"sort"
 	"strings"
@@ -193,7 +195,23 @@ func (p *Program) enumConsts(t types.Type) []*types.Const {
 		}
 	}
 	sort.Slice(out, func(i, j int) bool { return out[i].Pos() < out[j].Pos() })
-	return out
+	// a second name for a value that an exported constant of the type already has (an alias: `matchContains = MatchIn`)
+	// is not another member of the enumeration
+	var uniq []*types.Const
+	for _, c := range out {
+		alias := false
+		if !c.Exported() {
+			for _, d := range out {
+				if d != c && d.Exported() && constant.Compare(d.Val(), token.EQL, c.Val()) {
+					alias = true
+				}
+			}
+		}
+		if !alias {
+			uniq = append(uniq, c)
+		}
+	}
+	return uniq
 }
 
 // refineMatchers: of the functions with the matcher signature, the matchers proper are those that implement a positive
@@ -537,4 +555,19 @@ func filterEvalField(prog *Program) string {
 		}
 	}
 	return "evaluator"
+}
+
+// canonConstName: the name a constant is known by — for an unexported second name of a value that an exported constant
+// of the same type has, the exported constant's name.
+func canonConstName(c *types.Const) string {
+	if c.Exported() || c.Pkg() == nil {
+		return c.Name()
+	}
+	sc := c.Pkg().Scope()
+	for _, n := range sc.Names() {
+		if d, ok := sc.Lookup(n).(*types.Const); ok && d != c && d.Exported() && types.Identical(d.Type(), c.Type()) && constant.Compare(d.Val(), token.EQL, c.Val()) {
+			return d.Name()
+		}
+	}
+	return c.Name()
 }
